@@ -21,11 +21,74 @@ if VERIF not in sys.path:
 EXIT_OK, EXIT_VIOLATION, EXIT_INCONCLUSIVE = 0, 1, 2
 
 
+import ast as _ast_mod      # noqa: E402
+import importlib.machinery  # noqa: E402
+import importlib.util       # noqa: E402
+_REPO_MODULES = {f[:-3] for f in os.listdir(REPO) if f.endswith('.py')} if os.path.isdir(REPO) else set()
+
+
+class _JoinRewriter(_ast_mod.NodeTransformer):
+    """`<x>.join(<seq>)` -> `__symx_join__(<x>, <seq>)`: bytes.join is C code and cannot see engine bytes; the helper falls through to the real
+    method unless a symbolic operand is involved (semantics unchanged on concrete values; line numbers unchanged)"""
+
+    def visit_Call(self, node):
+        import ast
+        self.generic_visit(node)
+        if isinstance(node.func, ast.Attribute) and node.func.attr == 'join' and len(node.args) == 1 and not node.keywords:
+            new = ast.Call(func=ast.Name(id='__symx_join__', ctx=ast.Load()), args=[node.func.value, node.args[0]], keywords=[])
+            return ast.copy_location(new, node)
+        return node
+
+
+def _symx_join(sep, seq):
+    from symx import core
+    if isinstance(sep, (bytes, bytearray, core.SymBytes)):
+        items = list(seq)
+        if isinstance(sep, core.SymBytes) or any(isinstance(x, core.SymBytes) for x in items):
+            out = core.SymBytes([])
+            for i, x in enumerate(items):
+                if i:
+                    out = out + sep
+                out = out + x
+            return out
+        return sep.join(items)
+    return sep.join(seq)
+
+
+class _RepoFinder:
+    """meta path finder for the modules of the tree under analysis (symbolic runs only): the source is compiled after _JoinRewriter"""
+
+    @staticmethod
+    def find_spec(name, path=None, target=None):
+        if '.' in name or name not in _REPO_MODULES:
+            return None
+        f = os.path.join(REPO, name + '.py')
+        if not os.path.isfile(f):
+            return None
+
+        class Loader(importlib.machinery.SourceFileLoader):
+            def source_to_code(self, data, path, *, _optimize=-1):
+                import ast
+                try:
+                    tree = ast.parse(data, filename=path)
+                    tree = ast.fix_missing_locations(_JoinRewriter().visit(tree))
+                    return compile(tree, path, 'exec', dont_inherit=True, optimize=_optimize)
+                except SyntaxError:
+                    raise
+                except Exception:      # pragma: no cover - any problem of the rewriter: the plain source
+                    return super().source_to_code(data, path, _optimize=_optimize)
+        return importlib.util.spec_from_file_location(name, f, loader=Loader(name, f))
+
+
 def load_repo(shim=True):
     """import the modules of /repo's current working tree (never cached: no .pyc is written)"""
     sys.dont_write_bytecode = True
     logging.disable(logging.CRITICAL)
     logging.indent = None
+    if shim and not any(x is _RepoFinder for x in sys.meta_path):
+        import builtins
+        builtins.__symx_join__ = _symx_join
+        sys.meta_path.insert(0, _RepoFinder)
     import message, crypto      # noqa
     mods = {'message': message, 'crypto': crypto}
     try:
